@@ -23,10 +23,13 @@ Print Assumptions c05_inv_init.
 
 (* one operation: returns normally (no double free, no free of in-object storage, no out-of-bounds
    access, no use of released storage: any of these would be a Fault), re-establishes the invariant,
-   and changes the abstract values exactly as the value-semantics spec says *)
+   changes the abstract values exactly as the value-semantics spec says, and (FRAME) leaves the record
+   -- data pointer, size, in-object array -- of every object outside `targets op` untouched
+   (targets: the object operated on; for the two move operations also the source) *)
 Theorem c05_step : forall L, 1 <= L -> forall st s op,
   Inv L st -> Rel st s -> wf_bop st op ->
-  exists st', run_bop L op st = (Ok tt, st') /\ Inv L st' /\ Rel st' (spec_bop s op).
+  exists st', run_bop L op st = (Ok tt, st') /\ Inv L st' /\ Rel st' (spec_bop s op) /\
+              (forall o', ~ In o' (targets op) -> objs st' o' = objs st o').
 Proof. exact step_ok. Qed.
 Print Assumptions c05_step.
 
@@ -36,6 +39,15 @@ Theorem c05_all_histories : forall L, 1 <= L -> forall ops,
   exists st', run_ops L ops store0 = (Ok tt, st') /\ Inv L st' /\ Rel st' (fold_left spec_bop ops sstore0).
 Proof. exact reachable_ok. Qed.
 Print Assumptions c05_all_histories.
+
+(* FRAME over histories: an object that no operation of a well-formed history has among its targets
+   keeps its record over the whole history *)
+Theorem c05_history_frame : forall L, 1 <= L -> forall ops st s o,
+  Inv L st -> Rel st s -> wf_history s ops -> untouched o ops ->
+  exists st', run_ops L ops st = (Ok tt, st') /\ Inv L st' /\ Rel st' (fold_left spec_bop ops s) /\
+              objs st' o = objs st o.
+Proof. exact history_frame. Qed.
+Print Assumptions c05_history_frame.
 
 (* what any observer sees of a live buffer in a reachable state: size, the elements of the last
    value given to it, a NUL after the last element, and storage of the right class *)
